@@ -8,7 +8,8 @@ from common import (Inconclusive, NCPU, TLC_CP, build_harness, copy_specs, log, 
                     tlc_failed, tlc_stats, tlc_violation, write_cfg, write_evidence)
 
 # the protocols of the tree being verified (flipped by the commits that repaired F1 / F2)
-CODE_MODEL = {"Proto": '"drain"', "StreamProto": '"snapshot"', "LoopProto": '"survives"', "TruncMayFail": "TRUE"}
+CODE_MODEL = {"Proto": '"drain"', "StreamProto": '"snapshot"', "LoopProto": '"survives"', "TruncMayFail": "TRUE",
+              "SendProto": '"drop"'}
 
 OPS_QUICK = ["Ops_RW0", "Ops_RW1", "Ops_RW2", "Ops_RWfull", "Ops_RRW", "Ops_T1", "Ops_T2", "Ops_T3", "Ops_SW",
              "Ops_SWR", "Ops_STW", "Ops_WWW"]
